@@ -150,6 +150,17 @@ func oracleC02(x *Exec, r *StepRec) {
 	exp := map[string]int64{}
 	expEarned := earnedMap(pre)
 	checkAll := true
+	if r.Kind == "msgfail" && r.Msg.T == "respond" && r.Res.Code == "error" {
+		// an in-time response of the designated provider to a pending paid request must settle it
+		m := r.SdkMsg.(*types.MsgRespondService)
+		rid := hx(m.RequestId)
+		if q, ok := pre.Req[rid]; ok && pre.Active15[rid] && bytes.Equal(q.Provider, m.Provider) && coinsStake(q.ServiceFee) > 0 {
+			if _, ok := pre.Ctx[hx(q.RequestContextId)]; ok {
+				x.viol("C02", "response_refused", fmt.Sprintf("height %d: the designated provider's in-time response to paid request %s (expiry %d) was refused (%s): the fee cannot be settled to the provider", pre.Height, rid[:12], q.ExpirationHeight, r.Res.Err), map[string]string{"context_origin": x.ctxOrigin(hx(q.RequestContextId))})
+			}
+		}
+		return
+	}
 	switch r.Kind {
 	case "msgfail", "modfail", "commit", "params":
 		return
